@@ -143,7 +143,7 @@ func (l *layouter) trail() string {
 	return []string{" ", "  ", "\t", " \t", "      "}[r.Intn(5)]
 }
 
-var commentWords = []string{"note", "TODO", "Zürich", "現金", "2020-01-01 open Assets:X", "\"quoted\"", "@performance(USD)", "x", "* not a heading", "// nested", "balance", "include \"y.knut\"", "✓", "tab\there"}
+var commentWords = []string{"note", "TODO", "Zürich", "現金", "2020-01-01 open Assets:X", "\"quoted\"", "@performance(USD)", "x", "* not a heading", "// nested", "balance", "include \"y.knut\"", "✓", "tab\there", "20% of", "%s %d %v", "100%", "%!x(MISSING)", "\\n \\t", "{{.}}"}
 
 func (l *layouter) commentLine() string {
 	r := l.r
